@@ -61,7 +61,7 @@ def sh(cmd, timeout=None, cwd=None, mem_gb=None, env=None):
 
 class Query:
     def __init__(self, name, src, entry, desc, defs=(), link=(), ll2c=(), extra_c=(), cbmc=(), unwind=2, max_unwind=96,
-                 timeout=600, mem_gb=12, objbits=10, witness=True, validate=24, small_mask=0, clang=(), tiers=('quick', 'thorough'),
+                 timeout=600, mem_gb=24, objbits=10, witness=True, validate=24, small_mask=0, clang=(), tiers=('quick', 'thorough'),
                  stubs=(), assumptions=(), native_extra=(), weight=1, kf_defs=(), expect_fail_label=None, unwindset=None,
                  native_defs=(), solver=()):
         self.name = name; self.src = src; self.entry = entry; self.desc = desc
@@ -223,12 +223,16 @@ class Runner:
             if rc == -9:
                 rec['verdict'] = 'TIMEOUT'; rec['phase'] = 'tune' if not tuned else 'final'; return None, out
             res, st = parse_cbmc(out)
-            if st['verdict'] == 'NONE':
-                if 'std::bad_alloc' in out or 'Out of memory' in out or rc in (-6, 134, 137, -11):
+            if 'too many addressed objects' in out and q.objbits < 16:
+                q.objbits += 2; rec['object_bits'] = q.objbits
+                continue
+            if st['verdict'] == 'NONE' or any(r['status'] == 'ERROR' for r in res):
+                if 'bad_alloc' in out or 'Out of memory' in out or 'out of memory' in out or rc in (-6, 134, 137, -11):
                     rec['verdict'] = 'MEMOUT'
                 else:
                     rec['verdict'] = 'ERROR'
-                rec['error_tail'] = out[-1500:]
+                errl = [l for l in out.split('\n') if re.search(r'rror|xception|too many|nsupported|onversion', l) and not RES_RE.match(l)]
+                rec['error_tail'] = '\n'.join(errl[:12]) + '\n...\n' + out[-600:]
                 return None, out
             uw = [r for r in res if is_unwind(r) and r['status'] == 'FAILURE']
             if uw:
@@ -238,7 +242,7 @@ class Runner:
                     cur = bounds.get(k, default) if k else default
                     if cur >= q.max_unwind:
                         rec['verdict'] = 'UNWIND-LIMIT'; rec['unwind_limit_at'] = k; return None, out
-                    nv = min(q.max_unwind, cur + max(1, cur // 2))
+                    nv = min(q.max_unwind, cur * 2 if cur < 8 else cur + max(2, cur // 2))
                     if k: bounds[k] = nv
                     else: default = nv
                 continue
